@@ -62,7 +62,7 @@ def binit : BState :=
 
 inductive BLabel
   | base (l : Label)
-  | bRefused (t : Nat) | bCall (t : Nat) | bLock (t : Nat) | bInit (t : Nat) | bEnq (t id : Nat) | bUnlock (t : Nat)
+  | bRefused (t : Nat) | bCall (t : Nat) | bLock (t : Nat) | bInit (t : Nat) | bEnq (t id h : Nat) | bUnlock (t : Nat)
   | bDec (t : Nat) | bLdCnt (t : Nat) | bWaitLd (t : Nat) | bWaitFx (t : Nat) (o : FOut) | bSpurious (t : Nat) | bPut (t : Nat)
   | mSub (h : Nat) | mLdFut (h : Nat) | mStFut (h : Nat) | mWake (h : Nat) | mPut (h : Nat)
   deriving DecidableEq, Repr
@@ -70,11 +70,6 @@ inductive BLabel
 /-- hooks are not available to the environment of this layer -/
 def Label.isHook : Label → Bool
   | .extBegin _ | .extEnd _ | .extLock _ | .extUnlock _ | .extCall _ _ _ _ | .envPause _ _ => true
-  | _ => false
-
-/-- a user callback that has been queued and has not finished -/
-def Loc.queued : Loc → Bool
-  | .queue _ | .batch _ | .run _ => true
   | _ => false
 
 def upd2 (f : Nat → Nat → Bool) (b h : Nat) (v : Bool) : Nat → Nat → Bool :=
@@ -126,15 +121,14 @@ def bstep (c : Cfg) (s : BState) : BLabel → Option BState
                     cnt := upd s.cnt b s.base.list.length, ref := upd s.ref b (s.base.list.length + 1),
                     uaf := s.uaf || s.bfreed b }
     | _ => none
-  | .bEnq t id =>
+  | .bEnq t id h =>
     match s.bpc t with
     | .loop b =>
-      match s.todo b with
-      | h :: rest =>
+      if (s.todo b).head? = some h then
         match step c s.base (.extCall t id b h) with
-        | some b' => some { s with base := b', todo := upd s.todo b rest, mid := fun b' h' => if b' = b ∧ h' = h then id else s.mid b' h' }
+        | some b' => some { s with base := b', todo := upd s.todo b (s.todo b).tail, mid := fun b' h' => if b' = b ∧ h' = h then id else s.mid b' h' }
         | none => none
-      | [] => none
+      else none
     | _ => none
   | .bUnlock t =>
     match s.bpc t with
